@@ -38,6 +38,8 @@ ExpectBytes(kind) ==
     [] kind = "tmFail" -> <<84, 77, 70, 33, 32, 120, 61, 121>>
     [] kind = "valuerStr" -> <<76, 32, 86>>
     [] kind = "valuerErr" -> <<69, 33, 32, 97, 61, 98>>
+    [] kind \in {"nilErrPtr", "valuerNilErrPtr"} -> <<60, 110, 105, 108, 62>>          \* <nil>
+    [] kind = "panicErr" -> <<33, 80, 65, 78, 73, 67, 58, 32, 69, 114, 114, 111, 114, 40, 41, 32, 112, 97, 110, 105, 99, 115>>    \* "!PANIC: Error() panics"
     [] kind = "newline" -> <<116, 119, 111, 10, 108, 105, 110, 101, 115>>
     [] kind = "fakefield" -> <<120, 32, 108, 101, 118, 101, 108, 61, 69, 82, 82, 79, 82, 32, 109, 115, 103, 61, 102, 111, 114, 103, 101, 100>>
     [] kind = "quote" -> <<115, 97, 121, 32, 34, 104, 105, 34>>
